@@ -172,14 +172,16 @@ class Index:
         if text == "sync-stretch":
             # (C19) the SYNCHRONOUS STRETCH of a coroutine function: the whole body of the `async def`, where every
             # statement of the form `await <expr>` (the coroutine suspends there; what runs before it ran to completion like
-            # a callback) is replaced by `return`.  An `await` in any other position (`x = await f()`, `return await ..`)
+            # a callback) is replaced by `return <expr>`.  An `await` in any other position (`x = await f()`, `return await ..`)
             # is not supported.  A body without `await` is taken as it is.
             import copy
 
             class _Cut(ast.NodeTransformer):
                 def visit_Expr(self, node):
                     if isinstance(node.value, ast.Await):
-                        return ast.copy_location(ast.Return(value=None), node)
+                        # the awaited expression is evaluated by the synchronous stretch and handed to the event loop: it
+                        # becomes the region's result, so a contract can say WHAT is awaited (e.g. a shielded future)
+                        return ast.copy_location(ast.Return(value=node.value.value), node)
                     return self.generic_visit(node)
 
                 def visit_Await(self, node):
